@@ -213,3 +213,32 @@
         }
         std::mem::forget(x);
     }
+
+    /// a reader that hands out ONE byte per `read` call (like a streaming decompressor that returns short reads):
+    /// decode must still fill the whole value (read_exact), not return after the first short read
+    struct VkOneByte<'a> { data: &'a [u8], pos: usize }
+    impl<'a> std::io::Read for VkOneByte<'a> {
+        fn read(&mut self, buf: &mut [u8]) -> std::io::Result<usize> {
+            if buf.is_empty() || self.pos >= self.data.len() { return Ok(0); }
+            buf[0] = self.data[self.pos];
+            self.pos += 1;
+            Ok(1)
+        }
+    }
+    #[kani::proof]
+    #[kani::unwind(14)]
+    #[kani::stub(crate::error::Error::with_context, vk_with_context_stub)]
+    #[kani::stub(crate::error::Error::with_source, vk_with_source_stub)]
+    #[kani::stub(std::backtrace::Backtrace::capture, vk_bt_stub)]
+    fn code_vec_u8_decode_from_short_reads() {
+        let a: [u8; 3] = kani::any();
+        let mut buf = [0u8; 11];
+        buf[0] = 3;
+        buf[8] = a[0]; buf[9] = a[1]; buf[10] = a[2];
+        let mut rd = VkOneByte { data: &buf[..], pos: 0 };
+        match Vec::<u8>::decode(&mut rd) {
+            Ok(y) => { assert!(y.len() == 3 && y[0] == a[0] && y[1] == a[1] && y[2] == a[2], "[decode_fills_the_whole_value_from_a_reader_that_returns_short_reads]"); std::mem::forget(y); }
+            Err(e) => { assert!(false, "[decode_from_short_reads_is_ok]"); std::mem::forget(e); }
+        }
+        assert!(rd.pos == 11, "[decode_consumes_exactly_prefix_plus_value]");
+    }
